@@ -57,6 +57,11 @@ EXTRA = {"</rt>": ["e:rt:-"], "<q:a>": ["s:a:q"], "</q:a>": ["e:a:q"], "</doc>":
          "emptycomment": ["x:-", "d:-", "x:1"], "emptycdata": ["x:-", "d:-", "x:2"], "emptyflush": ["d:-", "x:-"],
          # characters that are whitespace to str.isspace() / string.whitespace but NOT in BeautifulSoup.ASCII_SPACES: never collapsed
          "vt": ["d:11"], "vtsp": ["d:11,32"], "fs": ["d:28,10"], "nel": ["d:133"], "lsep": ["d:8232,32"], "emsp": ["d:8195"],
+         # multi-character prefixes (one-character strings are interned by CPython, longer computed ones are not), same local name nested
+         "<ns:a>": ["s:a:ns"], "</ns:a>": ["e:a:ns"], "<ns2:a>": ["s:a:ns2"], "</ns2:a>": ["e:a:ns2"],
+         # end of data naming the ORDINARY string class explicitly (new_string(s, NavigableString) during a parse): inside a container
+         # the text still takes the container's class
+         "data+plain": ["x:-", "d:122", "x:0"], "ws+plain": ["x:-", "d:32,32", "x:0"],
          # names are compared exactly as the builder sends them (a builder that does not case-fold may send `Pre`, `SCRIPT`):
          # they are NOT the configured `pre` / `script`
          "<Pre>": ["s:Pre:-"], "</Pre>": ["e:Pre:-"], "<SCRIPT>": ["s:SCRIPT:-"], "</SCRIPT>": ["e:SCRIPT:-"], "<A>": ["s:A:-"], "</A>": ["e:A:-"]}
@@ -92,10 +97,12 @@ def make_builder(cfg, events, attempts=()):
             rejected = markup != "REPLAY"
             for ev in (attempts[int(markup[7:])] if rejected else events):
                 f = ev.split(":")
+                # prefixes (and names) are handed over as strings computed per event, as a SAX-style builder does (`qname.split(":")`):
+                # equal to the open element's, never the same object
                 if f[0] == "s":
-                    soup.handle_starttag(f[1], None, None if f[2] == "-" else f[2], {})
+                    soup.handle_starttag("".join(list(f[1])), None, None if f[2] == "-" else "".join(list(f[2])), {})
                 elif f[0] == "e":
-                    soup.handle_endtag(f[1], None if f[2] == "-" else f[2])
+                    soup.handle_endtag("".join(list(f[1])), None if f[2] == "-" else "".join(list(f[2])))
                 elif f[0] == "d":
                     soup.handle_data("" if f[1] == "-" else "".join(chr(int(c)) for c in f[1].split(",")))
                 elif f[0] == "x":
